@@ -196,4 +196,59 @@ theorem query_exact_when_utf8_partial (bs : List Nat)
   obtain ⟨h1, h2⟩ := hu kv hkv
   simp [formDecode, hl _ h1, hl _ h2]
 
+
+/-- **C15 (8) parse ∘ print = id for every scalar type of the supported subset**: the text a client
+    writes for a value of the type (`Display`) parses back to exactly that value — unsigned and
+    signed integers of every width on their full range, `bool`, every Unicode scalar value as
+    `char` (1–4 byte UTF-8), strings. -/
+theorem parse_print_scalar (t : STy) (owned : Bool) (v : SVal) (h : SValOk t v) :
+    parseScalar t owned (printSVal v) = some v :=
+  parseScalar_print t owned v h
+
+/-- signed integers: exactly the type's range is accepted, `MIN` included, `MAX + 1` not. -/
+theorem parse_print_signed (bits : Nat) (z : Int) :
+    parseSigned bits (intDigits z) =
+      if -((2 ^ (bits - 1) : Nat) : Int) ≤ z ∧ z < ((2 ^ (bits - 1) : Nat) : Int) then some z else none :=
+  parseSigned_intDigits bits z
+
+example : parseSigned 8 [45, 49, 50, 56] = some (-128) ∧ parseSigned 8 [49, 50, 56] = none ∧
+    parseSigned 8 [45, 49, 50, 57] = none ∧ parseSigned 8 [45, 48] = some 0 ∧ parseSigned 8 [45] = none ∧
+    parseChar [240, 159, 152, 128] = some 128512 ∧ parseChar [97, 98] = none ∧ parseChar [] = none ∧
+    parseBool [116, 114, 117, 101] = some true ∧ parseBool [84, 114, 117, 101] = none := by decide
+
+/-- **C15 (9) typed path data equals what the client encoded** (the round trip through
+    `PathParams::extract`): the client renders each field's value as text, percent-encodes it with ANY
+    `AsciiSet` containing `%`, and puts the parameters in ANY order among other parameters; then
+    extraction returns exactly those values, field by field. -/
+theorem path_roundtrip (inSet : Nat → Bool) (hp : inSet 37 = true)
+    (fields : List Field) (val : Field → SVal) (params : List (List Nat × List Nat))
+    (hfn : (fields.map (·.name)).Nodup) (hpn : (params.map (·.1)).Nodup)
+    (hty : ∀ f ∈ fields, ∃ t, f.ty = .s t ∧ SValOk t (val f))
+    (hsent : ∀ f ∈ fields, (f.name, percentEncode inSet (printSVal (val f))) ∈ params)
+    (hbytes : ∀ f ∈ fields, ∀ b ∈ printSVal (val f), b < 256)
+    (hutf8 : ∀ p ∈ params, utf8Valid (percentDecode p.2) = true) :
+    pathExtract fields params = .ok (fields.map (fun f => (f.name, Val.s (val f)))) := by
+  rw [path_by_name fields params hfn hpn]
+  refine ⟨params.map decodeOne, decodeParams_ok_iff.mpr ⟨hutf8, rfl⟩, ?_⟩
+  have hdn : ((params.map decodeOne).map (·.1)).Nodup := by
+    simpa [List.map_map, decodeOne, Function.comp_def] using hpn
+  unfold pathSpec
+  apply structSpec_of_all (fun f => Val.s (val f))
+  intro f hf
+  obtain ⟨t, ht, hok⟩ := hty f hf
+  have hm : (f.name, percentDecode (percentEncode inSet (printSVal (val f))),
+      percentDecode (percentEncode inSet (printSVal (val f))) != percentEncode inSet (printSVal (val f))) ∈
+      params.map decodeOne :=
+    List.mem_map.mpr ⟨_, hsent f hf, rfl⟩
+  unfold fieldSpec
+  rw [lookup_of_mem_nodup hdn hm, decode_encode inSet hp _ (hbytes f hf)]
+  simp [pathDe, pathField, ht, parse_print_scalar t _ (val f) hok]
+
+/-- Non-vacuity of (9): `{ id: u8, name: String }`, client sends `name = "a/%é"` fully encoded
+    before `id = 255`, plus an unrelated parameter. -/
+example :
+    pathExtract [⟨[105, 100], .s (.u 8)⟩, ⟨[110], .s .string⟩]
+      [([110], percentEncode (fun b => b = 37 || b = 47) [97, 47, 37, 195, 169]), ([120], [48]), ([105, 100], [50, 53, 53])]
+      = .ok [([105, 100], .s (.int 255)), ([110], .s (.str [97, 47, 37, 195, 169]))] := by decide
+
 end Pxv.ReqData
